@@ -563,7 +563,7 @@ Record Inv (E : option string) (ss : sstate) (s : state) : Prop := mkInv {
   inv_act : match active ss with
             | None => realc s /\ config s = []
             | Some (e, c) => homog e s /\ in_hist e c (hist ss) = true
-                             /\ (forall k, c = Some k -> assoc (f_conn_key fa) (config s) <> None)
+                             /\ (forall k, c = Some k -> assoc (f_conn_key fa) (config s) = Some k)
             end;
   inv_cfg : forall k, assoc (f_conn_key fa) (config s) = Some k -> exists e', in_hist e' (Some k) (hist ss) = true;
   inv_cfgm : multi_mode fa = true ->
@@ -623,18 +623,18 @@ Proof.
   unfold store_config. now apply fold_cset_has.
 Qed.
 
-Lemma sess_valid_snoc : forall ss ac x e0 c0,
-  sess_valid ss e0 c0 -> sess_valid (mkS ac (hist ss ++ [x])) e0 c0.
+Lemma sess_valid_snoc : forall ss ac lg x e0 c0,
+  sess_valid ss e0 c0 -> sess_valid (mkS ac (hist ss ++ [x]) lg) e0 c0.
 Proof.
-  intros ss ac x e0 c0 [H | [H1 [H2 [c H3]]]]; unfold sess_valid; cbn [hist].
+  intros ss ac lg x e0 c0 [H | [H1 [H2 [c H3]]]]; unfold sess_valid; cbn [hist].
   - left; now apply in_hist_snoc.
   - right; split; [exact H1 | split; [exact H2 | exists c; now apply in_hist_snoc]].
 Qed.
 
-Lemma sess_ok_snoc : forall ss s s' x ac,
-  sessall s' = sessall s -> sess_ok ss s -> sess_ok (mkS ac (hist ss ++ [x])) s'.
+Lemma sess_ok_snoc : forall ss s s' x ac lg,
+  sessall s' = sessall s -> sess_ok ss s -> sess_ok (mkS ac (hist ss ++ [x]) lg) s'.
 Proof.
-  intros ss s s' x ac He [H1 H2]. unfold sessall in He. inversion He as [[Hs Hb]]. unfold sess_ok. rewrite Hs, Hb.
+  intros ss s s' x ac lg He [H1 H2]. unfold sessall in He. inversion He as [[Hs Hb]]. unfold sess_ok. rewrite Hs, Hb.
   split.
   - destruct (sess s) as [|e0 c0|]; [exact I | now apply sess_valid_snoc | cbn [hist]; now apply tainted_snoc].
   - intros e e0 c0 H. apply sess_valid_snoc. exact (H2 _ _ _ H).
@@ -649,7 +649,7 @@ Lemma step_activate : forall E ss s e c kv,
 Proof.
   intros E ss s e c kv HI Hok HE ev Hev. apply andb_true_iff in Hok as [Hok Hwf].
   destruct (activate_homog e c kv s Hok (inv_attr _ _ _ HI)) as [Ho [Hh [Hai [Hcfg Hse]]]].
-  assert (Hsn : snext ss ev = mkS (Some (e, c)) (hist ss ++ [(e, c)])) by (destruct Hev; subst ev; reflexivity).
+  assert (Hsn : snext ss ev = mkS (Some (e, c)) (hist ss ++ [(e, c)]) (lastgoc ss)) by (destruct Hev; subst ev; reflexivity).
   split.
   - unfold accept. rewrite Hsn. cbn [active]. rewrite Ho, Hcfg.
     assert (Hgoal : (match c with Some k => cfg_has (store_config fa c kv s) (f_conn_key fa) k | None => true end
@@ -668,7 +668,7 @@ Proof.
         -- rewrite Hh0 in Hin. destruct Hin.
       * now inversion Hin.
     + split; [exact Hh | split; [apply in_hist_last|]].
-      intros k Hc. rewrite Hcfg, (store_config_conn c kv s k Hwf Hc). discriminate.
+      intros k Hc. rewrite Hcfg. exact (store_config_conn c kv s k Hwf Hc).
     + intros k Hk. rewrite Hcfg in Hk. destruct c as [k0|].
       * rewrite (store_config_conn (Some k0) kv s k0 Hwf eq_refl) in Hk. inversion Hk; subst.
         exists e. apply in_hist_last.
@@ -690,7 +690,7 @@ Proof.
 Qed.
 
 Lemma step_deactivate : forall E ss s ev,
-  Inv E ss s -> deact_raises fa en s = false -> snext ss ev = mkS None (hist ss) ->
+  Inv E ss s -> deact_raises fa en s = false -> snext ss ev = mkS None (hist ss) (lastgoc ss) ->
   (match ev with Deactivate | CtxExit _ => True | _ => False end) ->
   accept fa en ss ev (fst (deactivate s)) (config (snd (deactivate s))) = true
   /\ Inv E (snext ss ev) (snd (deactivate s)).
@@ -784,14 +784,45 @@ Proof.
   - exact Hs.
 Qed.
 
+(** a connection given now is the session's, unless the process's current session already is this engine's *)
+Definition fresh_ok (ss : sstate) (e : string) (c c0 : option nat) : Prop :=
+  match c with
+  | Some k => lastgoc ss = Some e \/ mem e (f_noconn fa) = true \/ c0 = Some k
+  | None => True
+  end.
+
 Lemma accept_session : forall ss e c c0 cfg,
-  active ss = Some (e, c) -> sess_valid ss e c0 -> accept fa en ss GetOrCreate (GSession e c0) cfg = true.
+  active ss = Some (e, c) -> sess_valid ss e c0 -> (tainted (hist ss) = true \/ fresh_ok ss e c c0) ->
+  accept fa en ss GetOrCreate (GSession e c0) cfg = true.
 Proof.
-  intros ss e c c0 cfg Hac Hv. unfold accept. cbn [snext]. rewrite Hac. cbn. rewrite String.eqb_refl. cbn [andb].
-  destruct Hv as [H | [H1 [H2 _]]].
-  - rewrite H. rewrite !orb_true_r. reflexivity.
-  - subst c0. rewrite H1. cbn. apply orb_true_r.
+  intros ss e c c0 cfg Hac Hv Hf. unfold accept. cbn [snext]. rewrite Hac. cbn [active].
+  destruct Hf as [Ht | Hf]; [rewrite Ht; reflexivity|].
+  cbn. rewrite String.eqb_refl. cbn [andb].
+  assert (H1 : (mem e (f_noconn fa) && optnat_eqb c0 None || in_hist e c0 (hist ss)) = true).
+  { destruct Hv as [H | [H1 [H2 _]]]; [rewrite H; apply orb_true_r | subst c0; rewrite H1; reflexivity]. }
+  rewrite H1. cbn [andb].
+  assert (H2 : match c with
+               | Some k => opt_eqb (lastgoc ss) (Some e) || mem e (f_noconn fa) || optnat_eqb c0 (Some k)
+               | None => true
+               end = true).
+  { destruct c as [k|]; [|reflexivity]. destruct Hf as [H | [H | H]].
+    - rewrite H. cbn. now rewrite String.eqb_refl.
+    - rewrite H. now rewrite orb_true_r.
+    - subst c0. cbn. rewrite Nat.eqb_refl. now rewrite !orb_true_r. }
+  rewrite H2. apply orb_true_r.
 Qed.
+
+Lemma remember_sess : forall e r, sess (snd (remember fa e r)) = sess (snd r).
+Proof. intros e [o s']. unfold remember. destruct o; try reflexivity. destruct (mem e (f_cached fa)); reflexivity. Qed.
+
+(** what the Spec's [lastgoc] says about the model's session slot *)
+Definition LastP (lg : option string) (ss : sstate) (s : state) : Prop :=
+  match lg with
+  | Some e' => (exists c, in_hist e' c (hist ss) = true)
+               /\ (tainted (hist ss) = true \/ exists c0, sess s = SLive e' c0)
+  | None => sess s = SNone /\ bcache s = []
+  end.
+Definition Last (ss : sstate) (s : state) : Prop := LastP (lastgoc ss) ss s.
 
 Lemma sess_valid_engine : forall E ss e0 c0, hist_engine E (hist ss) -> sess_valid ss e0 c0 -> E = Some e0.
 Proof.
@@ -814,11 +845,12 @@ Proof.
 Qed.
 
 Lemma step_goc_session : forall E ss s e c,
-  Inv E ss s -> active ss = Some (e, c) ->
+  Inv E ss s -> Last ss s -> active ss = Some (e, c) ->
   accept fa en ss GetOrCreate (fst (goc_session fa en e s)) (config (snd (goc_session fa en e s))) = true
-  /\ Inv E ss (snd (goc_session fa en e s)).
+  /\ Inv E ss (snd (goc_session fa en e s))
+  /\ (tainted (hist ss) = true \/ exists c0, sess (snd (goc_session fa en e s)) = SLive e c0).
 Proof.
-  intros E ss s e c HI Hac. pose proof (inv_act _ _ _ HI) as Hact. rewrite Hac in Hact.
+  intros E ss s e c HI HL Hac. pose proof (inv_act _ _ _ HI) as Hact. rewrite Hac in Hact.
   unfold goc_session.
   - destruct Hact as [Hh [Hin Hc]]. pose proof Hh as [Ht [Hq _]].
     destruct (inv_sess _ _ _ HI) as [Hse Hbc].
@@ -843,7 +875,8 @@ Proof.
     assert (Hcreate : forall s0, Inv E ss s0 -> config s0 = config s ->
               accept fa en ss GetOrCreate (fst (remember fa e (create_session fa en e s0)))
                      (config (snd (remember fa e (create_session fa en e s0)))) = true
-              /\ Inv E ss (snd (remember fa e (create_session fa en e s0)))).
+              /\ Inv E ss (snd (remember fa e (create_session fa en e s0)))
+              /\ (tainted (hist ss) = true \/ exists c0, sess (snd (remember fa e (create_session fa en e s0))) = SLive e c0)).
     { intros s0 HI0 Hcfg0. unfold create_session. rewrite Hcfg0.
       set (c' := if mem e (f_noconn fa) then None else assoc (f_conn_key fa) (config s)).
       destruct (is_bad c' && mem e (bad_raises en)) eqn:Hbad.
@@ -854,6 +887,7 @@ Proof.
           cbn in Hb. destruct k as [|[|[|[|[|[|[|[|[|[|k]]]]]]]]]]; try discriminate.
           destruct (inv_cfg _ _ _ HI _ Hk) as [e' He']. now apply (in_hist_bad_tainted e'). }
         cbn [remember fst snd]. split; [unfold accept; cbn [snext]; rewrite Hac; cbn; rewrite Ht9; reflexivity|].
+        split; [|left; exact Ht9].
         apply (Inv_sessall E ss s0); try reflexivity; [exact HI0|].
         destruct (inv_sess _ _ _ HI0) as [_ H2]. split; [exact Ht9 | exact H2].
       - assert (Hv : sess_valid ss e c').
@@ -861,13 +895,34 @@ Proof.
           - right; split; [exact Hn | split; [reflexivity | exists c; exact Hin]].
           - left. destruct (assoc (f_conn_key fa) (config s)) as [k|] eqn:Hk.
             + exact (Hconn k eq_refl).
-            + destruct c as [k|]; [exfalso; now apply (Hc k eq_refl)|]. exact Hin. }
+            + destruct c as [k|]; [discriminate (Hc k eq_refl)|]. exact Hin. }
+        assert (Hfr : fresh_ok ss e c c').
+        { unfold fresh_ok. destruct c as [k|]; [|exact I]. unfold c'.
+          destruct (mem e (f_noconn fa)) eqn:Hn; [right; left; reflexivity | right; right; exact (Hc k eq_refl)]. }
         assert (HI1 : Inv E ss (set_sess s0 (SLive e c'))).
         { apply (Inv_sessall E ss s0); try reflexivity; [exact HI0|].
           destruct (inv_sess _ _ _ HI0) as [_ H2]. split; [exact Hv | exact H2]. }
         destruct (Inv_remember E ss e (GSession e c', set_sess s0 (SLive e c')) HI1) as [Ho HI2].
         { intros e0 c0 H. cbn in H. inversion H; subst. exact Hv. }
-        rewrite Ho. cbn [fst]. split; [now apply (accept_session ss e c) | exact HI2]. }
+        rewrite Ho. cbn [fst]. split; [apply (accept_session ss e c); [exact Hac | exact Hv | right; exact Hfr]|].
+        split; [exact HI2|]. right. exists c'. rewrite remember_sess. reflexivity. }
+    (* the Spec's record of the last getOrCreate, read on the model *)
+    assert (Hlast : (exists c1, sess s = SLive e c1) \/ (exists e1 c1, mem e (f_cached fa) = true /\ assoc e (bcache s) = Some (e1, c1)) ->
+                    tainted (hist ss) = true \/ (lastgoc ss = Some e /\ exists c1, sess s = SLive e c1)).
+    { intros Hw. unfold Last, LastP in HL. destruct (lastgoc ss) as [e'|] eqn:Hlg.
+      - destruct HL as [[cc Hin'] [Ht' | [c1 Hs1]]]; [left; exact Ht'|]. right.
+        assert (He' : e' = e).
+        { destruct Hw as [[c2 Hs2] | [e1 [c2 [Hmc Hbc2]]]].
+          - rewrite Hs1 in Hs2. now inversion Hs2.
+          - destruct (inv_hist _ _ _ HI) as [Hm | Hh0].
+            + unfold multi_mode in Hm. apply andb_true_iff in Hm as [_ Hm].
+              destruct (f_cached fa); [unfold mem in Hmc; cbn in Hmc; discriminate | discriminate].
+            + pose proof (hist_engine_in _ _ _ _ Hh0 Hin') as H1. pose proof (hist_engine_in _ _ _ _ Hh0 Hin) as H2.
+              rewrite H1 in H2. now inversion H2. }
+        subst e'. split; [reflexivity | exists c1; exact Hs1].
+      - destruct HL as [Hs0 Hb0]. destruct Hw as [[c2 Hs2] | [e1 [c2 [_ Hbc2]]]].
+        + rewrite Hs0 in Hs2. discriminate.
+        + rewrite Hb0 in Hbc2. discriminate. }
     destruct (if mem e (f_cached fa) then assoc e (bcache s) else None) as [[e0 c0]|] eqn:Hcache.
     + (* the Builder's cached session: only possible in the one-engine mode *)
       destruct (mem e (f_cached fa)) eqn:Hmc; [|discriminate].
@@ -877,16 +932,27 @@ Proof.
         unfold multi_mode in Hm. apply andb_true_iff in Hm as [_ Hm].
         destruct (f_cached fa); [unfold mem in Hmc; cbn in Hmc; discriminate | discriminate]. }
       subst e0. cbn [fst snd].
-      split; [now apply (accept_session ss e c) | exact HI].
+      destruct (Hlast (or_intror (ex_intro _ e (ex_intro _ c0 (conj eq_refl Hcache))))) as [Ht' | [Hlg Hs1]].
+      * split; [apply (accept_session ss e c); [exact Hac | exact Hv | left; exact Ht']|]. split; [exact HI | left; exact Ht'].
+      * split; [apply (accept_session ss e c); [exact Hac | exact Hv | right]|].
+        -- unfold fresh_ok. destruct c; [left; exact Hlg | exact I].
+        -- split; [exact HI | right; exact Hs1].
     + destruct (sess s) as [|e0 c0|] eqn:Hs.
       * apply (Hcreate s HI eq_refl).
       * destruct (String.eqb e0 e || f_singleton_global fa) eqn:Hb.
         -- pose proof (Hlive _ _ Hse Hb) as He0. subst e0.
            destruct (Inv_remember E ss e (GSession e c0, s) HI) as [Ho HI2].
            { intros e1 c1 H. cbn in H. inversion H; subst. exact Hse. }
-           rewrite Ho. cbn [fst]. split; [now apply (accept_session ss e c) | exact HI2].
+           rewrite Ho. cbn [fst].
+           assert (Hsr : sess (snd (remember fa e (GSession e c0, s))) = SLive e c0) by (rewrite remember_sess; exact Hs).
+           destruct (Hlast (or_introl (ex_intro _ c0 eq_refl))) as [Ht' | [Hlg _]].
+           ++ split; [apply (accept_session ss e c); [exact Hac | exact Hse | left; exact Ht']|]. split; [exact HI2 | left; exact Ht'].
+           ++ split; [apply (accept_session ss e c); [exact Hac | exact Hse | right]|].
+              ** unfold fresh_ok. destruct c; [left; exact Hlg | exact I].
+              ** split; [exact HI2 | right; exists c0; exact Hsr].
         -- apply (Hcreate s HI eq_refl).
-      * cbn [fst snd]. split; [unfold accept; cbn [snext]; rewrite Hac; cbn; rewrite Hse; reflexivity | exact HI].
+      * cbn [fst snd]. split; [unfold accept; cbn [snext]; rewrite Hac; cbn; rewrite Hse; reflexivity|].
+        split; [exact HI | left; exact Hse].
 Qed.
 
 Lemma Inv_aux : forall E ss s s',
@@ -907,22 +973,37 @@ Proof.
   destruct o; cbn [fst snd]; (split; [reflexivity | split; [reflexivity | apply (Inv_aux E ss s'); try reflexivity; exact HI]]).
 Qed.
 
+Lemma Inv_ss : forall E ss ss' s, Inv E ss s -> active ss' = active ss -> hist ss' = hist ss -> Inv E ss' s.
+Proof.
+  intros E [a h l] [a' h' l'] s HI Ha Hh. cbn in Ha, Hh. subst a' h'. destruct HI. constructor; assumption.
+Qed.
+
+Lemma note_dial_sessall : forall e r, sessall (snd (note_dial fa e r)) = sessall (snd r).
+Proof. intros e [o s']. unfold note_dial. destruct o; reflexivity. Qed.
+
 Lemma step_goc : forall E ss s,
-  Inv E ss s ->
+  Inv E ss s -> Last ss s ->
   (match active ss with Some (e, _) => mem e (f_selfref fa) = false | None => True end) ->
   accept fa en ss GetOrCreate (fst (get_or_create fa en s)) (config (snd (get_or_create fa en s))) = true
-  /\ Inv E ss (snd (get_or_create fa en s)).
+  /\ Inv E (snext ss GetOrCreate) (snd (get_or_create fa en s))
+  /\ Last (snext ss GetOrCreate) (snd (get_or_create fa en s)).
 Proof.
-  intros E ss s HI Hsr. pose proof (inv_act _ _ _ HI) as Hact.
-  unfold get_or_create.
+  intros E ss s HI HL Hsr. pose proof (inv_act _ _ _ HI) as Hact.
+  unfold get_or_create. cbn [snext].
   destruct (active ss) as [[e c]|] eqn:Hac.
-  - destruct Hact as [Hh _]. pose proof Hh as [_ [Hq _]].
+  - destruct Hact as [Hh [Hin _]]. pose proof Hh as [_ [Hq _]].
     unfold Activate.import_sql. rewrite Hq, Hsr.
     set (s2 := set_bd s (apply_cfg fa e (config s) (bd s))).
     assert (HI2 : Inv E ss s2) by (apply (Inv_aux E ss s); try reflexivity; exact HI).
-    destruct (step_goc_session E ss s2 e c HI2 Hac) as [Hacc HI3].
+    assert (HL2 : Last ss s2) by exact HL.
+    destruct (step_goc_session E ss s2 e c HI2 HL2 Hac) as [Hacc [HI3 Hs3]].
     destruct (note_dial_spec E ss e (goc_session fa en e s2) HI3) as [Ho [Hcf HI4]].
-    rewrite Ho, Hcf. split; [exact Hacc | exact HI4].
+    rewrite Ho, Hcf. split; [exact Hacc|]. split.
+    + apply (Inv_ss E ss); [exact HI4 | rewrite Hac; reflexivity | reflexivity].
+    + unfold Last, LastP. cbn [lastgoc hist]. split; [exists c; exact Hin|].
+      destruct Hs3 as [Ht | [c0 Hs0]]; [left; exact Ht|]. right. exists c0.
+      pose proof (note_dial_sessall e (goc_session fa en e s2)) as Hsa. unfold sessall in Hsa. inversion Hsa as [[H1 H2]].
+      rewrite H1. exact Hs0.
   - destruct Hact as [Hr Hcfg].
     destruct (import_sql_real s Hr) as [Ho [Hr' [Hf1 [Hf2 Hf3]]]].
     destruct (import_sql s) as [o s1]; cbn [fst snd] in *. subst o.
@@ -934,10 +1015,21 @@ Proof.
       - intros _. rewrite Hac. exact I.
       - apply (sess_ok_same ss ss s); [reflexivity | exact Hf2 | exact (inv_sess _ _ _ HI)]. }
     assert (HI2 : Inv E ss (set_lastd s1 LNone)) by (apply (Inv_aux E ss s1); try reflexivity; exact HI').
-    unfold accept. cbn [snext]. rewrite Hac.
+    assert (HL2 : Last ss (set_lastd s1 LNone)).
+    { unfold Last, LastP in *. unfold sessall in Hf2. inversion Hf2 as [[H1 H2]]. cbn [sess bcache set_lastd]. rewrite H1, H2. exact HL. }
+    unfold accept. cbn [snext]. rewrite Hac. cbn iota. rewrite Hac.
     unfold Activate.base_view. destruct (installed en) eqn:Hi; cbn [fst snd].
-    + split; [cbn [config set_lastd]; rewrite Hf1, Hcfg; reflexivity | exact HI2].
-    + split; [cbn [config set_lastd]; rewrite Hf1, Hcfg; reflexivity | exact HI2].
+    + split; [cbn [config set_lastd]; rewrite Hf1, Hcfg; reflexivity | split; [exact HI2 | exact HL2]].
+    + split; [cbn [config set_lastd]; rewrite Hf1, Hcfg; reflexivity | split; [exact HI2 | exact HL2]].
+Qed.
+
+(** every other event leaves the session slot and the Builder caches alone *)
+Lemma import_sql_sessall : forall s, sessall (snd (import_sql s)) = sessall s.
+Proof.
+  intros s. unfold Activate.import_sql, Activate.import_top, load_bundle.
+  destruct (sql s); [reflexivity|]. destruct (top s) as [[| | | |]|]; try reflexivity.
+  - destruct (sql s); reflexivity.
+  - destruct (installed en); [|reflexivity]. cbn. destruct (sql s); reflexivity.
 Qed.
 
 Lemma step_bconf : forall E ss s single kv,
@@ -973,24 +1065,122 @@ Proof.
   destruct (active ss) as [[e c]|]; [reflexivity|]. destruct Hact as [_ Hc]. rewrite Hc. reflexivity.
 Qed.
 
-Lemma step_inv : forall E ss s ev,
-  Inv E ss s -> step_ok fa en ss s ev = true -> (multi_mode fa = true \/ single_ok E ev) ->
-  accept fa en ss ev (fst (step s ev)) (config (snd (step s ev))) = true
-  /\ Inv (next_engine E ev) (snext ss ev) (snd (step s ev)).
+Lemma import_top_sessall : forall s, sessall (snd (import_top s)) = sessall s.
 Proof.
-  intros E ss s ev HI Hok Hs.
-  destruct ev as [e c kv | | e c kv | k | | fm p | e | single kv | ]; cbn [Activate.step step_ok] in *;
-    unfold next_engine, single_ok in *; cbn [engine_of] in *.
-  - apply (step_activate E ss s e c kv HI Hok); [destruct Hs as [Hs | Hs]; [left; exact Hs | right; destruct E; auto] | left; reflexivity].
-  - apply negb_true_iff in Hok. apply (step_deactivate E ss s Deactivate HI Hok); [reflexivity | exact I].
-  - apply (step_activate E ss s e c kv HI Hok); [destruct Hs as [Hs | Hs]; [left; exact Hs | right; destruct E; auto] | right; reflexivity].
-  - apply andb_true_iff in Hok as [Hx Hnr]. rewrite Hx. apply negb_true_iff in Hnr.
-    apply (step_deactivate E ss s (CtxExit k) HI Hnr); [reflexivity | exact I].
-  - apply (step_goc E ss s HI). destruct (active ss) as [[e c]|]; [|exact I]. now apply negb_true_iff in Hok.
-  - apply (step_import E ss s fm p HI).
-  - apply (step_loadf E ss s e HI).
-  - apply (step_bconf E ss s single kv HI). destruct (active ss) as [[e c]|]; [|exact I]. now apply negb_true_iff in Hok.
-  - cbn [fst snd]. split; [exact (step_readd E ss s _ HI) | exact HI].
+  intros s. unfold Activate.import_top, load_bundle. destruct (top s); [reflexivity|].
+  destruct (installed en); reflexivity.
+Qed.
+
+Ltac sessall_via H := let s1 := fresh "s1" in let o := fresh "o" in let E := fresh "E" in
+  match type of H with sessall (snd ?t) = _ => destruct t as [o s1] eqn:E; cbn [snd] in H end.
+
+Lemma import_sub_sessall : forall f s, sessall (snd (import_sub f s)) = sessall s.
+Proof.
+  intros f s. unfold Activate.import_sub. destruct (assoc f (subs s)); [reflexivity|].
+  pose proof (import_sql_sessall s) as H. destruct (import_sql s) as [o s1]. cbn [snd] in H.
+  destruct o as [| |m| | | | | | | |]; try exact H.
+  destruct (assoc f (subs s1)); [exact H|].
+  destruct m; try exact H.
+  - destruct (mem f (bundle en)); exact H.
+  - destruct (mem f (pkg_files fa e)); exact H.
+Qed.
+
+Lemma import_testing_sessall : forall s, sessall (snd (import_testing s)) = sessall s.
+Proof.
+  intros s. unfold Activate.import_testing. destruct (tst s); [reflexivity|].
+  pose proof (import_top_sessall s) as H. destruct (import_top s) as [o s1]. cbn [snd] in H.
+  destruct o as [| |m| | | | | | | |]; try exact H.
+  destruct m; try exact H. destruct (testing_imp en); exact H.
+Qed.
+
+Lemma importA_sessall : forall p s, sessall (snd (importA p s)) = sessall s.
+Proof.
+  intros [| |f|] s; cbn [Activate.importA];
+    [apply import_top_sessall | apply import_sql_sessall | apply import_sub_sessall | apply import_testing_sessall].
+Qed.
+
+Lemma do_import_sessall : forall fm p s, sessall (snd (do_import fm p s)) = sessall s.
+Proof.
+  intros [] p s; cbn [Activate.do_import].
+  - apply importA_sessall.
+  - unfold Activate.importS. pose proof (importA_sessall p s) as H. destruct (importA p s) as [o s1]. cbn [snd] in H.
+    destruct o as [| |m| | | | | | | |]; try exact H.
+    destruct (top s1) as [[| me | | |]|]; try exact H.
+    destruct p as [| |f|], me as [e|]; try exact H.
+    destruct (mem2 e f (pattr s1)); exact H.
+  - destruct p as [| |f|]; cbn [Activate.importB].
+    + apply import_top_sessall.
+    + pose proof (import_top_sessall s) as H. destruct (import_top s) as [o s1]. cbn [snd] in H.
+      destruct o as [| |m| | | | | | | |]; try exact H.
+      destruct m as [|[e|]| | |]; try exact H. rewrite import_sql_sessall. exact H.
+    + pose proof (import_sql_sessall s) as H. destruct (import_sql s) as [o s1]. cbn [snd] in H.
+      destruct o as [| |m| | | | | | | |]; try exact H.
+      destruct m; try exact H.
+      * rewrite import_sub_sessall. exact H.
+      * destruct (mem2 e f (pattr s1)); [exact H|]. destruct (mem f (pkg_files fa e)); exact H.
+    + pose proof (import_top_sessall s) as H. destruct (import_top s) as [o s1]. cbn [snd] in H.
+      destruct o as [| |m| | | | | | | |]; try exact H.
+      destruct m; try exact H. rewrite import_testing_sessall. exact H.
+Qed.
+
+Lemma step_sessall : forall s ev, ev <> GetOrCreate -> sessall (snd (step s ev)) = sessall s.
+Proof.
+  intros s ev Hne. destruct ev as [e c kv | | e c kv | k | | fm p | e | single kv | ]; cbn [Activate.step].
+  - unfold Activate.activate. destruct (assoc e (f_engines fa)); reflexivity.
+  - unfold Activate.deactivate. cbn [snd]. destruct ((any_present s || junk s) && installed en); reflexivity.
+  - unfold Activate.activate. destruct (assoc e (f_engines fa)); reflexivity.
+  - destruct (exit_deactivates fa k); [|reflexivity].
+    unfold Activate.deactivate. cbn [snd]. destruct ((any_present s || junk s) && installed en); reflexivity.
+  - contradiction Hne; reflexivity.
+  - apply do_import_sessall.
+  - reflexivity.
+  - unfold builder_config. pose proof (import_sql_sessall s) as H. destruct (import_sql s) as [o s1]. cbn [snd] in H.
+    destruct o as [| |m| | | | | | | |]; try exact H.
+    destruct m; try exact H. destruct (mem e (f_selfref fa)); exact H.
+  - reflexivity.
+Qed.
+
+Lemma Last_step : forall ss s ev, ev <> GetOrCreate -> Last ss s -> Last (snext ss ev) (snd (step s ev)).
+Proof.
+  intros ss s ev Hne HL. pose proof (step_sessall s ev Hne) as Hsa. unfold sessall in Hsa. inversion Hsa as [[H1 H2]].
+  assert (Hlg : lastgoc (snext ss ev) = lastgoc ss) by (destruct ev; try reflexivity; contradiction Hne; reflexivity).
+  assert (Hh : forall e c, in_hist e c (hist ss) = true -> in_hist e c (hist (snext ss ev)) = true).
+  { intros e c H. destruct ev; cbn [snext hist]; try exact H; try (now apply in_hist_snoc). contradiction Hne; reflexivity. }
+  assert (Ht : tainted (hist ss) = true -> tainted (hist (snext ss ev)) = true).
+  { intros H. destruct ev; cbn [snext hist]; try exact H; try (now apply tainted_snoc). contradiction Hne; reflexivity. }
+  unfold Last, LastP in *. rewrite Hlg. destruct (lastgoc ss) as [e'|].
+  - destruct HL as [[c Hin] Hd]. split; [exists c; now apply Hh|].
+    destruct Hd as [Hd | [c0 Hs]]; [left; now apply Ht | right; exists c0; rewrite H1; exact Hs].
+  - rewrite H1, H2. exact HL.
+Qed.
+
+Lemma step_inv : forall E ss s ev,
+  Inv E ss s -> Last ss s -> step_ok fa en ss s ev = true -> (multi_mode fa = true \/ single_ok E ev) ->
+  accept fa en ss ev (fst (step s ev)) (config (snd (step s ev))) = true
+  /\ Inv (next_engine E ev) (snext ss ev) (snd (step s ev))
+  /\ Last (snext ss ev) (snd (step s ev)).
+Proof.
+  intros E ss s ev HI HL Hok Hs.
+  assert (Hmain : ev <> GetOrCreate ->
+            accept fa en ss ev (fst (step s ev)) (config (snd (step s ev))) = true
+            /\ Inv (next_engine E ev) (snext ss ev) (snd (step s ev))).
+  { intros Hne.
+    destruct ev as [e c kv | | e c kv | k | | fm p | e | single kv | ]; cbn [Activate.step step_ok] in *;
+      unfold next_engine, single_ok in *; cbn [engine_of] in *.
+    - apply (step_activate E ss s e c kv HI Hok); [destruct Hs as [Hs | Hs]; [left; exact Hs | right; destruct E; auto] | left; reflexivity].
+    - apply negb_true_iff in Hok. apply (step_deactivate E ss s Deactivate HI Hok); [reflexivity | exact I].
+    - apply (step_activate E ss s e c kv HI Hok); [destruct Hs as [Hs | Hs]; [left; exact Hs | right; destruct E; auto] | right; reflexivity].
+    - apply andb_true_iff in Hok as [Hx Hnr]. rewrite Hx. apply negb_true_iff in Hnr.
+      apply (step_deactivate E ss s (CtxExit k) HI Hnr); [reflexivity | exact I].
+    - contradiction Hne; reflexivity.
+    - apply (step_import E ss s fm p HI).
+    - apply (step_loadf E ss s e HI).
+    - apply (step_bconf E ss s single kv HI). destruct (active ss) as [[e c]|]; [|exact I]. now apply negb_true_iff in Hok.
+    - cbn [fst snd]. split; [exact (step_readd E ss s _ HI) | exact HI]. }
+  destruct ev as [e c kv | | e c kv | k | | fm p | e | single kv | ];
+    try (destruct Hmain as [A B]; [discriminate|]; split; [exact A | split; [exact B | apply Last_step; [discriminate | exact HL]]]).
+  cbn [Activate.step step_ok] in *. unfold next_engine. cbn [engine_of].
+  apply (step_goc E ss s HI HL). destruct (active ss) as [[e c]|]; [|exact I]. now apply negb_true_iff in Hok.
 Qed.
 
 Lemma single_engine_step : forall E ev r,
@@ -1003,19 +1193,19 @@ Proof.
 Qed.
 
 Lemma run_conforms_gen : forall evs E ss s,
-  Inv E ss s -> (multi_mode fa = true \/ single_engine E evs = true) -> steps_ok fa en ss s evs = true ->
+  Inv E ss s -> Last ss s -> (multi_mode fa = true \/ single_engine E evs = true) -> steps_ok fa en ss s evs = true ->
   conforms fa en ss evs (fst (run s evs)) = true.
 Proof.
-  induction evs as [|ev r IH]; intros E ss s HI Hse Hok; [reflexivity|].
+  induction evs as [|ev r IH]; intros E ss s HI HL Hse Hok; [reflexivity|].
   cbn [Activate.run steps_ok] in *. apply andb_true_iff in Hok as [Hok1 Hok2].
   assert (Hs : (multi_mode fa = true \/ single_ok E ev)
                /\ (multi_mode fa = true \/ single_engine (next_engine E ev) r = true)).
   { destruct Hse as [Hm | Hse]; [split; left; exact Hm|].
     destruct (single_engine_step _ _ _ Hse) as [Hs1 Hs2]. split; right; assumption. }
   destruct Hs as [Hs1 Hs2].
-  destruct (step_inv E ss s ev HI Hok1 Hs1) as [Hacc HI'].
+  destruct (step_inv E ss s ev HI HL Hok1 Hs1) as [Hacc [HI' HL']].
   destruct (step s ev) as [o s1] eqn:Hst. cbn [fst snd] in *.
-  specialize (IH _ _ _ HI' Hs2 Hok2).
+  specialize (IH _ _ _ HI' HL' Hs2 Hok2).
   destruct (run s1 r) as [os s2]. cbn [fst conforms] in *. now rewrite Hacc, IH.
 Qed.
 
@@ -1025,7 +1215,7 @@ Theorem run_conforms : forall evs,
   in_domain fa en evs = true -> conforms fa en sinit evs (fst (run init_state evs)) = true.
 Proof.
   intros evs H. unfold in_domain in H. apply andb_true_iff in H as [H1 H2].
-  apply (run_conforms_gen evs None sinit init_state Inv_init); [|exact H2].
+  apply (run_conforms_gen evs None sinit init_state Inv_init); [split; reflexivity | |exact H2].
   apply orb_true_iff in H1 as [H1 | H1]; [right; exact H1 | left; exact H1].
 Qed.
 
@@ -1111,7 +1301,7 @@ Proof.
       { unfold accept. destruct Hev; subst ev'; cbn [snext active]; rewrite Ho, Hcfg; cbn; apply (accept_activate_cfg e c kv s Hwf). }
       destruct Hev; subst ev'; exact Ha.
     - destruct Hev; subst ev'; (split; [exact Hai' | exact Hh]). }
-  assert (Hdeact : deact_raises fa en s = false -> forall ev', snext ss ev' = mkS None (hist ss) ->
+  assert (Hdeact : deact_raises fa en s = false -> forall ev', snext ss ev' = mkS None (hist ss) (lastgoc ss) ->
             (match ev' with Deactivate | CtxExit _ => True | _ => False end) ->
             accept0 fa en ss ev' (fst (deactivate s)) (config (snd (deactivate s))) = true
             /\ Inv0 (snext ss ev') (snd (deactivate s))).
@@ -1130,7 +1320,9 @@ Proof.
     unfold accept0. cbn [snext].
     destruct (active ss) as [[e c]|] eqn:Hac.
     + pose proof Hact as [_ [Hq _]]. split; [reflexivity|].
-      apply (Inv0_core ss s); [unfold Inv0; rewrite Hac; split; assumption | now apply (goc_core_active e)].
+      assert (H0 : Inv0 ss (snd (get_or_create fa en s)))
+        by (apply (Inv0_core ss s); [unfold Inv0; rewrite Hac; split; assumption | now apply (goc_core_active e)]).
+      unfold Inv0 in *. cbn [active]. rewrite Hac in H0. exact H0.
     + unfold get_or_create. destruct Hact as [Hr Hcfg].
       destruct (import_sql_real s Hr) as [Ho [Hr' [Hf1 _]]].
       destruct (import_sql s) as [o s1]; cbn [fst snd] in *. subst o.
